@@ -28,7 +28,7 @@ What is proved here:
 
 * `mirror_statement_list_roundtrip` — one level up, again for the mirror itself (`Parse.statementList`,
   `statementsOrEmpty`, `statement`, `ifStatement`, `whileStatement`, `repeatStatement`): the token list of every
-  statement list built from assignments to named variables, IF … THEN … [ELSE …] END_IF, WHILE … DO … END_WHILE,
+  statement list built from assignments to named variables, IF … THEN … {ELSIF … THEN …} [ELSE …] END_IF, WHILE … DO … END_WHILE,
   REPEAT … UNTIL … END_REPEAT, FOR … := … TO … [BY …] DO … END_FOR, EXIT and RETURN — nested to any depth, bodies of any length, any `MX.S`
   expression as condition or right-hand side — is read back as exactly the list of trees the grammar actions
   build: every statement, in order, each body under the statement it was written in (nothing dropped,
@@ -118,7 +118,7 @@ theorem mirror_statement_list_roundtrip (l : MX.Stl) (hl : l.WF) (hne : l.isNil 
     Parse.statementList (Parse.fuelFor (l.toks ++ K :: R).length) (l.toks ++ K :: R) = some (l.sxs, K :: R) :=
   MX.statementList_roundtrip l hl hne K R hK _ (Nat.le_refl _)
 
-/-- non-vacuity: `WHILE a DO IF b THEN x := c; ELSE EXIT; END_IF; END_WHILE;` meets `WF` -/
+/-- non-vacuity: `WHILE a DO IF b THEN x := c; ELSIF d THEN RETURN; ELSE EXIT; END_IF; END_WHILE;` meets `WF` -/
 example :
     let id (s : String) : Item := ⟨false, "Identifier", 0, 0, 0, 0, s.toList⟩
     let kw (ty s : String) : Item := ⟨false, ty, 0, 0, 0, 0, s.toList⟩
@@ -126,10 +126,13 @@ example :
     (MX.Stl.cons (.whileS (kw "While" "WHILE") (kw "Do" "DO") (.leaf (id "a"))
         (.cons (.ifElse (kw "If" "IF") (kw "Then" "THEN") (.leaf (id "b"))
                   (.cons (.assign (id "x") (kw "Assignment" ":=") (.leaf (id "c"))) semi .nil)
+                  (.cons (kw "Elsif" "ELSIF") (kw "Then" "THEN") (.leaf (id "d"))
+                     (.cons (.returnS (kw "Return" "RETURN")) semi .nil) .nil)
                   (kw "Else" "ELSE") (.cons (.exitS (kw "Exit" "EXIT")) semi .nil) (kw "EndIf" "END_IF")) semi .nil)
         (kw "EndWhile" "END_WHILE")) semi .nil).WF := by
   intro id kw semi
-  exact ⟨⟨rfl, rfl, rfl, rfl, ⟨⟨rfl, rfl, rfl, rfl, rfl, ⟨⟨rfl, rfl, rfl⟩, rfl, trivial⟩, ⟨rfl, rfl, trivial⟩, rfl⟩, rfl, trivial⟩, rfl⟩, rfl, trivial⟩
+  exact ⟨⟨rfl, rfl, rfl, rfl, ⟨⟨rfl, rfl, rfl, rfl, rfl, ⟨⟨rfl, rfl, rfl⟩, rfl, trivial⟩, ⟨rfl, rfl, trivial⟩, rfl,
+    ⟨rfl, rfl, rfl, ⟨rfl, rfl, trivial⟩, rfl, trivial⟩⟩, rfl, trivial⟩, rfl⟩, rfl, trivial⟩
 
 /-- **Round trip of whole libraries through the parser mirror**: programs without variable blocks, any number, any
 statements of `MX.Stl`. -/
